@@ -8,6 +8,8 @@ import (
 	"fmt"
 	"go/token"
 	"go/types"
+	"math"
+	"math/rand"
 	"os"
 	"strings"
 
@@ -100,7 +102,22 @@ func (i *interpreter) nextName(name string) string {
 // nondetScalar introduces a fresh symbolic scalar of kind k.
 func (i *interpreter) nondetScalar(name string, k types.BasicKind, kindName string) value {
 	if i.path == nil {
-		return i.concNondet(name, kindName, 1)[0].scalar(k)
+		return i.concNondet(name, kindName, func(r *rand.Rand) []uint64 {
+			if k == types.Float64 {
+				fs := []float64{0, 1.5, -0.25, 1e300, math.Inf(1), math.NaN(), 9007199254740993, -1}
+				if r.Intn(2) == 0 {
+					return []uint64{math.Float64bits(fs[r.Intn(len(fs))])}
+				}
+				return []uint64{math.Float64bits(r.NormFloat64() * 1e6)}
+			}
+			if k == types.Float32 {
+				return []uint64{uint64(math.Float32bits(float32(r.NormFloat64() * 100)))}
+			}
+			if k == types.Bool {
+				return []uint64{uint64(r.Intn(2))}
+			}
+			return []uint64{genBits(r, kindWidth(k))}
+		}).scalar(k)
 	}
 	vn := i.nextName(name)
 	var t, v *Term
@@ -153,7 +170,7 @@ func init() {
 	reg(hp+"vChoice", func(i *interpreter, fr *frame, args []value) value {
 		name, n := strArg(args[0]), int(asInt64(args[1]))
 		if i.path == nil {
-			return int(i.concNondet(name, "choice", 1)[0].Bits[0])
+			return int(i.concNondet(name, "choice", func(r *rand.Rand) []uint64 { return []uint64{uint64(r.Intn(n))} }).Bits[0])
 		}
 		c := i.path.choose(n, "choice")
 		i.path.nondets = append(i.path.nondets, NondetRec{Name: name, Kind: "choice", Conc: c})
@@ -166,7 +183,12 @@ func init() {
 	reg(hp+"vLen", func(i *interpreter, fr *frame, args []value) value {
 		name, lo, hi := strArg(args[0]), int(asInt64(args[1])), int(asInt64(args[2]))
 		if i.path == nil {
-			return int(i.concNondet(name, "len", 1)[0].Bits[0])
+			return int(i.concNondet(name, "len", func(r *rand.Rand) []uint64 {
+				if hi < lo {
+					panic(pathEnd{"vacuous", "vLen empty range"})
+				}
+				return []uint64{uint64(lo + r.Intn(hi-lo+1))}
+			}).Bits[0])
 		}
 		if hi < lo {
 			panic(pathEnd{"vacuous", "vLen empty range"})
@@ -270,7 +292,19 @@ func (i *interpreter) callerPos(fr *frame) string {
 
 func (i *interpreter) nondetString(name string, maxLen int, ascii bool) value {
 	if i.path == nil {
-		rv := i.concNondet(name, "string", -1)[0]
+		rv := i.concNondet(name, "string", func(r *rand.Rand) []uint64 {
+			n := r.Intn(maxLen + 1)
+			out := make([]uint64, n)
+			alpha := "aAbBzZ.0_-x"
+			for j := range out {
+				if ascii || r.Intn(2) == 0 {
+					out[j] = uint64(alpha[r.Intn(len(alpha))])
+				} else {
+					out[j] = uint64(r.Intn(256))
+				}
+			}
+			return out
+		})
 		b := make([]byte, len(rv.Bits))
 		for j, x := range rv.Bits {
 			b[j] = byte(x)
